@@ -1008,7 +1008,17 @@ var hostsLine = rapid.Custom(func(t *rapid.T) string {
 			// fold-equal look-alike (U+017F for s, U+212A for k) whose IDNA
 			// form is longer, one character more or less.
 			tw := nm
-			switch rapid.IntRange(0, 4).Draw(t, "twinkind") {
+			switch rapid.IntRange(0, 7).Draw(t, "twinkind") {
+			case 5, 6:
+				// The previous name with one more label in front (the usual
+				// "example.com www.example.com" pair; with a name near the
+				// 253-octet limit the longer one is over it).
+				tw = rapid.SampledFrom([]string{"www", "w", "a-b", "x1"}).Draw(t, "sub") + "." + nm
+			case 7:
+				// ... or with its first label removed.
+				if i := strings.IndexByte(nm, '.'); i >= 0 {
+					tw = nm[i+1:]
+				}
 			case 0:
 				tw = strings.ToUpper(nm)
 			case 1:
